@@ -229,6 +229,12 @@ func (e *Executor) RunTask(ctx context.Context, call *Call) error {
 			}
 		}
 
+		// The commands are about to run: an earlier success for the same
+		// sources no longer counts until this run has completed.
+		if err := e.statusOnStart(t); err != nil {
+			e.Logger.VerboseErrf(logger.Yellow, "task: error cleaning status on start: %v\n", err)
+		}
+
 		// A dry run only prints the commands and must not create anything
 		if !e.Dry {
 			if err := e.mkdir(t); err != nil {
